@@ -307,6 +307,8 @@ def check(case):
         tags.append("max_iter_exhausted")
     if case["epochs"] == -1:
         tags.append("epochs-1")
+    if case.get("plateau") and len(exp_steps) >= 3:
+        tags.append("plateau>=3_steps")
     if case["batch_size"] == -1 or bs >= n:
         tags.append("one_batch")
     if bs == 1:
@@ -336,6 +338,11 @@ def _cases(draw):
     if "multi" in (ytype, atype) and draw(st.integers(0, 3)) > 0:
         lo_bs = 4  # mostly geometries where the first slice can hold every class
     mode = draw(st.sampled_from(["whole", "over", "divides", "ragged", "ragged", "ragged", "ragged", "any", "any"]))
+    # plateau: learning rates too small to change any float32 weight and the same rows in every step, so consecutive
+    # steps see identical losses - the schedule still runs to its end
+    plateau = draw(st.integers(0, 6)) == 0
+    if plateau:
+        mode = draw(st.sampled_from(["whole", "over"]))
     ragged = [b for b in range(lo_bs, n) if n % b != 0]
     divides = [b for b in range(lo_bs, n) if n % b == 0]
     if mode == "ragged" and ragged:
@@ -352,6 +359,8 @@ def _cases(draw):
     per_epoch = -(-n // ebs)
     max_iter = draw(st.sampled_from([-1] * 8 + list(range(1, 13))))
     epochs = draw(st.sampled_from([1, 2, 2, 3, 3] + ([-1] if max_iter != -1 else [])))
+    if plateau and epochs != -1:
+        epochs = draw(st.sampled_from([3, 4, 6]))
     total = max_iter if epochs == -1 else epochs * per_epoch
     if max_iter != -1:
         total = min(total, max_iter)
@@ -417,8 +426,9 @@ def _cases(draw):
         kinds = ["str", "callable"] + (["instance"] if spec["kind"] == "module" else [])
         return draw(st.sampled_from(kinds))
 
-    lrs = st.sampled_from([0.001, 0.005, 0.01, 0.02, 0.05])
+    lrs = st.sampled_from([0.001, 0.005, 0.01, 0.02, 0.05]) if not plateau else st.sampled_from([1e-9, 1e-12])
     return {
+        "plateau": plateau,
         "n": n, "n_features": nf, "X": X, "Xtest": Xtest, "y": y, "a": a,
         "batch_size": bs, "epochs": epochs, "max_iter": max_iter,
         "max_iter_via": draw(st.sampled_from(["attr", "attr", "base"])),
